@@ -258,6 +258,10 @@ func c02(r *Report) {
 	})
 
 	r.Guard("C02.R4", "a modifier error becomes a Warning on the message just modified and processing continues", func() {
+		if wf := r.Use("proxyutil", "Warning"); wf != nil {
+			warningQuoted(r, wf)
+		}
+
 		for _, f := range []*ssa.Function{handle, hcr} {
 			g := G(f)
 			for _, ci := range calls(f) {
